@@ -47,8 +47,9 @@ def plan(tier):
         K("conformance", "harness.c07", "conformance_job", "shim builders vs real mypy", timeout=900),
         CH("annotated", "harness.c07", "annotated", [f"0:{s}" for s in range(6)], timeout=t, desc="results vs annotation",
            stubs=["mypy node classes -> validated shim"], symbolic="shape selectors"),
-        CH("grouping", "harness.c07", "grouping", [f"0:{n},1:{a}" for n in range(3 if tier == "thorough" else 2) for a in range(4 if tier == "thorough" else 3)],
-           timeout=t, desc="inferred result grouping covers every returned type", symbolic="shape selectors"),
+        CH("grouping", "harness.c07", "grouping", [f"0:{n},1:{a}" + x for n in range(3 if tier == "thorough" else 2) for a in range(4 if tier == "thorough" else 3)
+                                                   for x in ([f",2:{k}" for k in range(12)] if tier == "thorough" and n >= 1 else [""])],
+           timeout=t, allow_empty=tier == "thorough", desc="inferred result grouping covers every returned type", symbolic="shape selectors"),
         CH("inferred", "harness.c07", "inferred", [f"0:{k}" for k in range(14)], timeout=t, desc="return-statement search and coverage",
            stubs=["mypy node classes -> validated shim"], symbolic="statement-tree selectors"),
         CH("no_return", "harness.c07", "no_return", [""], timeout=t, desc="no annotation, no returned value -> no results"),
